@@ -48,7 +48,7 @@ ASSUMPTIONS = [
     "critical nodes (root, furcations, tips) have distinct (x, y, z, r) keys",
     "spacing > 0; finite coordinates",
 ]
-REQUIRED = ["branch_results_kept_across_calls", "tree_resamplings", "branches_checked", "sample_points_checked", "zero_length_branches",
+REQUIRED = ["branch_results_kept_across_calls", "resamplings_under_custom_names_and_subclasses", "tree_resamplings", "branches_checked", "sample_points_checked", "zero_length_branches",
             "two_node_branches_longer_than_spacing", "exact_multiple_spacings", "root_one_child",
             "non_soma_roots", "instance_reused", "branch_isometric_checked", "integer_coordinate_branches",
             "branch_linear_checked", "branch_smoother_checked", "tree_smoother_checked", "assembler_identity_checked",
@@ -287,6 +287,26 @@ def exec_tree(ctx, case):
                             f"second call of the same IsometricResampler({spacing:.6g}) instance "
                             f"on the same tree"):
         return
+    if case["tree"]["seed"] % 4 == 1 and type(tree).__name__ == "Tree" and \
+            out.number_of_nodes() < 3000:
+        # other implementers of the same interface: a twin under custom column names, and a user
+        # subclass that stores voxel units and reports physical ones through get_ndata
+        from swcgeom.transforms import TreeSmoother
+
+        def both(t_):
+            return [IsometricResampler(spacing)(t_), TreeSmoother(3)(t_)]
+
+        r = G.same_under_renaming(both, tree, level=case["tree"]["seed"] // 4 % 2)
+        ctx.count("resamplings_under_custom_names_and_subclasses")
+        if r is None:
+            try:
+                r = G._same(IsometricResampler(spacing)(tree),
+                            IsometricResampler(spacing)(G.voxel_twin(tree)))
+                r = r and f"for a Tree subclass reporting its columns through get_ndata: {r}"
+            except Exception as e:
+                r = f"a Tree subclass overriding get_ndata: raised {type(e).__name__}: {str(e)[:100]}"
+        if r:
+            return ctx.violation("other-implementer", f"IsometricResampler({spacing:.6g}): {r}", case)
     if case.get("idempotent_probe") and out.number_of_nodes() < 4000:
         # resampling the resampled tree with the same spacing is again a valid resampling of it
         out3 = rs(out)
